@@ -331,6 +331,8 @@ class Foreign(Family):
                 picks = cands if tier != 'quick' else [rng.choice(cands) for _ in range(3)]
                 for (k, d) in picks:
                     yield dict(kind='defect', file=gf.inject(f, k, d, rng), base=f, at=k, defect=d)
+            if prop_id in ('C03', 'ALL') and i % 50 == 0:
+                yield dict(kind='misaligned', file=gf.misaligned_file(rng))
             if prop_id in ('C12', 'ALL'):
                 for _ in range(2):
                     g, added = gf.add_unknown_options(f, rng)
@@ -369,6 +371,14 @@ class Foreign(Family):
     def oracle(self, c, obs):
         data, robs, records, term, orc = self._impl(c)
         out = []
+        if c['kind'] == 'misaligned':
+            # line numbers are not compared here: the producer and a byte-level splitter disagree on the line count
+            exp = gf.expected(c['file'])
+            got = [r.get('text') for r in records if 'text' in r]
+            if term[0] != 'end' or got != [e['text'] for e in exp if 'text' in e]:
+                out.append(('C03', 'misaligned-newline-bytes', 'text %r read as %r then %r'
+                            % ([e['text'] for e in exp if 'text' in e], got, term[:2])))
+            return out
         if c['kind'] == 'wellformed':
             exp = gf.expected(c['file'])
             if term[0] != 'end':
